@@ -112,6 +112,11 @@ var props = map[string]propSpec{
 		Rule: "one sub-check per function (Exp, Exp2, Exp10, Expm1, Log, Log2, Log10, Log1p) under DefaultRoundingMode = nearest-even. rapid draws arguments stratified by decimal magnitude (whole range down to 1e-6176, -40..5, 1e-k scales k=1..70), integers and simple fractions in every cohort, threshold windows on the integer part (14149/14220 for Exp and Expm1; 6211, 20413..20517 and the word boundaries 64/128/192/255 for Exp2; 6111..6178 for Exp10), arguments far beyond the thresholds; for logarithms the full exponent range, 1 +/- j*10^-k (k = 1..34), exact powers of two and ten in every cohort, every two-leading-digit table slot, the tiny-argument windows of Log1p. Oracle: 512-bit big.Float reference (validated against a 483-row mpmath fixture and identities); the result must lie within one unit in the last place of the format at the true value (decided on integers in 1e-6 ulp units), be +Inf only when the true result is within one ulp of the largest Decimal, and be exact for the representable results the statement lists. The maximum observed error per function is reported in notes. Non-trivial = every in-domain non-zero argument; distinct = distinct (function, bits).",
 		Assumptions: append([]string{"math/big.Float arithmetic at 512 bits (about 450 bits effective after argument reduction) is the reference; results within 1e-6 ulp of the one-ulp bound cannot occur in practice and are not treated specially"}, commonAssumptions...),
 	},
+	"C18": {
+		QuickShards: 8, ThoroughShards: 16,
+		Rule: "rapid draws (x, y): y in {0, 1, -1} in any cohort; x = 10^k in any cohort with non-negative integer y (k*y steered to 6111, 6144, 6145, -6176, -6177) or y = +-1/2; negative x with odd / even / huge integer, half-integer and fractional y; x = 1 +- j*10^-k with |y| ~ 10^k; moderate x with integer, half-integer and arbitrary y; y chosen so that y*log10(x) lands within +-3 of 6144, 6145, -6176, -6177; extreme operands. Each pair under 6 modes and 6 DefaultRoundingMode values. Oracle: shortcut cases exactly as stated (RoundX for the reciprocal, exact powers of ten, NaN for negative base with non-integer exponent, sign (-1)^y); otherwise the 512-bit reference power with tolerance one ulp + |t|*|y|*(4e-37*|ln|x|| + 1e-55); +Inf / zero exactly when the exact power is beyond the range (the tolerance band at the threshold accepts both). The maximum observed error (in ulp and relative to the tolerance) is reported. Non-trivial = general-path pair or a power-of-ten / reciprocal shortcut; distinct = distinct (x bits, y bits).",
+		Assumptions: append([]string{"math/big.Float arithmetic at 512 bits (bigfl, validated against an mpmath fixture) is the reference for the general path"}, commonAssumptions...),
+	},
 	"C01": {
 		QuickShards: 8, ThoroughShards: 16,
 		Rule: "rapid draws operand pairs (independent; exponent gap -45..45; tie/near-tie constructor at the 34/35-digit boundary; near-cancellation across cohorts; swallowed operand up to gap 12287; zeros; overflow edge) and add/sub; every pair is evaluated under all 6 modes and under all 6 DefaultRoundingMode values against the exact integer sum rounded by ref.RoundX. Non-trivial = the exact sum is not representable (rounding decides) or the operands cancel exactly; distinct = distinct (x bits, y bits, op).",
